@@ -420,7 +420,7 @@ def adt_plan(chk, kind):
     """(number of histories, depth) per generation run"""
     if chk.thorough:
         return [(1200, 8), (600, 16), (200, 50), (40, 200)]
-    return [(140, 8), (60, 16), (16, 50), (3, 200)]
+    return [(100, 8), (40, 16), (10, 50), (2, 200)]
 
 
 def dbg(*a):
